@@ -94,7 +94,9 @@ impl BlpHeader {
     /// 0 level means original image.
     pub fn mipmap_pixels(&self, i: usize) -> u32 {
         let (w, h) = self.mipmap_size(i);
-        w * h
+        // Width and height come from the file: a product that does not fit stays at the
+        // maximum, which no image data can satisfy
+        w.saturating_mul(h)
     }
 
     /// Return alpha bits count in encoding
